@@ -19,10 +19,15 @@ open Mxl
 
 abbrev Kind := String
 
+/-- `State.sigs`: what `inspect.getfullargspec` reports for the function a component carries (by component
+    name).  In Python the signature is part of the function object stored in the component; the shared `Content`
+    keeps functions as opaque `List Rat → Rat`, so the signature is kept next to it.  A name without an entry
+    stands for a function whose positional parameters fit its argument list. -/
 structure State where
   content : Content := {}
   ids : List (Name × Kind) := []
   cache : Option Cache := none
+  sigs : List (Name × Gen.Sig) := []
 deriving Inhabited
 
 abbrev Res := Except Err Unit
@@ -145,12 +150,35 @@ def updateParameter (n : Name) (v : Option Val) (s : State) : State × Res :=
     | some v => putG parsL n v s
   else fail s (.keyError n)
 
+/-- (name, `len(el.args)`) of every function the sanity-check loop of `_create_cache` looks at, in the order of
+    its `it.chain(initial_assignments.items(), self._derived.items(), self._reactions.items(),
+    self._readouts.items())` — the operands are read from the source (`Gen.arityChecked`) -/
+def fnArities (c : Content) : List (Name × Nat) :=
+  Gen.arityChecked.flatMap fun d =>
+    if d == "initial_assignments" then
+      (omUnion (iaOf c.vars) (iaOf c.pars)).map fun kv => (kv.1, kv.2.args.length)
+    else if d == "_derived" then c.derived.map fun kv => (kv.1, kv.2.args.length)
+    else if d == "_reactions" then c.rxns.map fun kv => (kv.1, kv.2.rate.args.length)
+    else if d == "_readouts" then c.readouts.map fun kv => (kv.1, kv.2.args.length)
+    else []
+
+/-- `all(_check_function_arity(el.fn, len(el.args)) …)` -/
+def arityOK (sigs : List (Name × Gen.Sig)) (c : Content) : Bool :=
+  (fnArities c).all fun na =>
+    match sigs.lookup na.1 with
+    | some sg => Gen.checkFunctionArity sg na.2
+    | none => true
+
+/-- `_create_cache`: the sanity checks (`ArityMismatchError`), then the shared core's cache construction -/
+def buildCache (sigs : List (Name × Gen.Sig)) (c : Content) : Except Err Cache :=
+  if arityOK sigs c then createCache c else .error (.other Gen.arityError)
+
 /-- `if (cache := self._cache) is None: cache = self._create_cache()` -/
 def ensureCache (s : State) : State × Except Err Cache :=
   match s.cache with
   | some c => (s, .ok c)
   | none =>
-    match createCache s.content with
+    match buildCache s.sigs s.content with
     | .ok c => ({ s with cache := some c }, .ok c)
     | .error e => (s, .error e)
 
@@ -739,24 +767,43 @@ def query (s : State) (q : Query) : State × Except Err Ans :=
       | (s1, .ok cache) => (s1, answer s1.content cache q)
     else (s, answer s.content default q)
 
-/-- what a freshly built model with this content answers -/
-def freshAnswer (c : Content) (q : Query) : Except Err Ans :=
+/-- what a freshly built model with this content (and these functions) answers -/
+def freshAnswer (sigs : List (Name × Gen.Sig)) (c : Content) (q : Query) : Except Err Ans :=
   if q.needsCache then do
-    let cache ← createCache c
+    let cache ← buildCache sigs c
     answer c cache q
   else answer c default q
 
 /-! ### histories -/
 
+/-- the component names for which a call passes a function object (initial assignment, derived quantity,
+    rate, readout) -/
+def Op.fnNames : Op → List Name
+  | .add_parameter n _ | .update_parameter n _ | .add_variable n _ | .update_variable n _
+  | .add_derived n _ | .update_derived n _ _ | .add_reaction n _ | .update_reaction n _ _ _
+  | .add_readout n _ => [n]
+  | .add_parameters l | .update_parameters l | .add_variables l | .update_variables l => l.map (·.1)
+  | _ => []
+
+/-- a public mutator call together with the signatures of the function objects it passes: the body runs; when it
+    returns normally the passed functions (with their signatures) are what the named components now carry -/
+def stepS (s : State) (op : Op) (given : List (Name × Gen.Sig)) : State × Res :=
+  let r := step s op
+  match r.2 with
+  | .ok () =>
+    ({ r.1 with sigs := (given.filter fun g => op.fnNames.contains g.1).foldl (fun m g => omInsert m g.1 g.2) r.1.sigs },
+     .ok ())
+  | .error e => (r.1, .error e)
+
 inductive HOp where
-  | edit (op : Op)
+  | edit (op : Op) (given : List (Name × Gen.Sig) := [])
   | ask (q : Query)
   /-- `model = copy.deepcopy(model)`: the history goes on with an independent copy (containers, ids and cache
       are copied, nothing is shared with the original) -/
   | fork
 
 def stepH (s : State) : HOp → State
-  | .edit op => (step s op).1
+  | .edit op given => (stepS s op given).1
   | .ask q => (query s q).1
   | .fork => s
 
